@@ -247,7 +247,12 @@ func TestFixedOffset(t *testing.T) {
 			if rapid.IntRange(0, 3).Draw(t, l+"garbageFirst") == 0 {
 				// the readers ignore the error of Unmarshal in one place; a rejected input must leave
 				// a decoder that answers "nothing" and is fully usable afterwards
-				bad := rapid.SliceOfN(rapid.Byte(), 0, 12).Draw(t, l+"bad")
+				bad, kind := rapid.SliceOfN(rapid.Byte(), 0, 12).Draw(t, l+"bad"), "junk"
+				if rapid.Bool().Draw(t, l+"badOfReal") {
+					// a damaged copy of the real table: cut inside the header / the count / the offsets, flipped ...
+					bad, kind = damageBytes(t, l+"dmg", data, 0)
+				}
+				classes = append(classes, "damaged="+kind)
 				if _, err := dec.Unmarshal(bad); err != nil {
 					if _, ok := dec.Get(0); ok {
 						t.Fatalf("decoder answers Get(0) after rejecting %x", bad)
